@@ -366,8 +366,8 @@ impl Property for C19 {
     }
     fn budget(&self, tier: Tier) -> (u32, usize) {
         match tier {
-            Tier::Quick => (60_000, 8),
-            Tier::Thorough => (1_000_000, 16),
+            Tier::Quick => (120_000, 8),
+            Tier::Thorough => (3_000_000, 16),
         }
     }
     fn run(&self, case: &ChaosCase) -> Report {
